@@ -15,6 +15,9 @@ pub enum HOp {
     Reset(u8),
     /// instance 1 := clone of instance 0 (fresh instance for the types that are not Clone)
     Fork,
+    /// update instance i with `total` bytes of a fixed pattern (byte k = (k * 31 + seed) mod 251), fed in chunks of `chunk` bytes:
+    /// lengths at which the bit / byte counters of the fixed-output hashes cross 2^32
+    Huge(u8, u8, u64, u32),
     /// SHAKE only
     Flip(u8),
     Extract(u8, u16),
@@ -191,6 +194,22 @@ fn run_fixed(c: &Case) -> Outcome {
                     inst[i].as_mut().unwrap().update(d);
                     model[i].data.extend_from_slice(d);
                 }
+                HOp::Huge(i, seed, total, chunk) => {
+                    let i = (*i & 1) as usize;
+                    if inst[i].is_none() || model[i].flipped { continue; }
+                    let chunk = (*chunk as usize).clamp(1, 1 << 24);
+                    let pat: Vec<u8> = (0..(251usize * 4096 + chunk)).map(|k| ((k % 251) as u64 * 31 + *seed as u64) as u8).collect();
+                    let mut done = 0u64;
+                    model[i].data.reserve(*total as usize);
+                    while done < *total {
+                        let n = ((*total - done) as usize).min(chunk);
+                        let off = (done % (251 * 4096)) as usize;
+                        inst[i].as_mut().unwrap().update(&pat[off..off + n]);
+                        model[i].data.extend_from_slice(&pat[off..off + n]);
+                        done += n as u64;
+                    }
+                    nt = true;
+                }
                 HOp::Finalize(i, v, extra) => {
                     let i = (*i & 1) as usize;
                     if inst[i].is_none() || model[i].flipped { continue; }
@@ -326,6 +345,7 @@ fn run_shake(c: &Case) -> Outcome {
                     inst[i].as_mut().unwrap().reset();
                     model[i] = Model { data: vec![], flipped: false, extracted: 0 };
                 }
+                HOp::Huge(..) => {}
                 HOp::Fork => {
                     if model[0].data.len() % rate != 0 || model[0].flipped { nt = true; }
                     inst[1] = Some(inst[0].as_ref().unwrap().dup());
@@ -417,7 +437,7 @@ impl Property for C17 {
         "C17"
     }
     fn rule(&self) -> String {
-        "Each case = hash function (SHA-224/256/384/512, SHA-512/224, SHA-512/256, SHA3-224/256/384/512, SHAKE128/256, BLAKE2s unkeyed / keyed / 256-bit wrapper with output length 1..32 and key length 0..32) + a history of up to 12 operations over two instances: update with chunk lengths {0,1,block-1,block,block+1,2*block+3, padding boundaries 55..65/111..129, uniform <= 700}, every finalize variant (with over-long output buffers), reset, clone (fork), SHAKE flip / extract(len) / flip_extract / flip_extract_reset; documented misuse (use after a non-resetting finalize, SHAKE phase errors) is skipped by a phase model. Oracle: the reference one-shot digest (validated against hashlib) of the bytes accumulated since the last reset; SHAKE stream prefix property; the one-call hash() / hash_into(). Non-trivial: a chunk crosses a block/rate boundary starting mid-block, or a reset / clone happens mid-block. distinct = distinct case hash.".into()
+        "Each case = hash function (SHA-224/256/384/512, SHA-512/224, SHA-512/256, SHA3-224/256/384/512, SHAKE128/256, BLAKE2s unkeyed / keyed / 256-bit wrapper with output length 1..32 and key length 0..32) + a history of up to 12 operations over two instances: update with chunk lengths {0,1,block-1,block,block+1,2*block+3, padding boundaries 55..65/111..129, uniform <= 700}, every finalize variant (with over-long output buffers), reset, clone (fork), SHAKE flip / extract(len) / flip_extract / flip_extract_reset; documented misuse (use after a non-resetting finalize, SHAKE phase errors) is skipped by a phase model. Oracle: the reference one-shot digest (validated against hashlib) of the bytes accumulated since the last reset; SHAKE stream prefix property; the one-call hash() / hash_into(). Sweep: four streamed messages of 2^29 .. 2^32+6 bytes at which the bit / byte counters of SHA-224/256 and BLAKE2s cross a 32-bit word. Non-trivial: a chunk crosses a block/rate boundary starting mid-block, or a reset / clone happens mid-block; every sweep case. distinct = distinct case hash.".into()
     }
     fn shard_size(&self) -> u64 {
         250
@@ -451,6 +471,18 @@ impl Property for C17 {
         (prop::collection::vec(op, 0..12), 1u8..=32, prop::collection::vec(any::<u8>(), 0..=32))
             .prop_map(move |(ops, out_len, key)| Case { func, out_len, key, ops })
             .boxed()
+    }
+    fn sweep(&self, _tier: Tier) -> Vec<(&'static str, Case)> {
+        // message lengths at which the length counters cross a word boundary: SHA-224/256 keep a 64-bit bit count (high word
+        // non-zero from 2^29 bytes), BLAKE2s a 64-bit byte count in two 32-bit words (2^31: sign bit of the low word, 2^32:
+        // carry into the high word; the key block of keyed BLAKE2s counts). The 128-bit counters of SHA-384/512 cannot be reached.
+        let mk = |func: u8, key: Vec<u8>, pre: usize, total: u64, chunk: u32| Case { func, out_len: 32, key, ops: vec![HOp::Update(0, vec![0x5A; pre]), HOp::Huge(0, func, total, chunk)] };
+        vec![
+            ("sha224/counter_boundary", mk(0, vec![], 3, (1 << 29) - 1, 1 << 16)),
+            ("sha256/counter_boundary", mk(1, vec![], 0, 1 << 29, 1 << 20)),
+            ("blake2s/counter_boundary", mk(12, vec![], 1, 1 << 31, 1 << 20)),
+            ("keyed_blake2s/counter_boundary", mk(13, vec![7u8; 32], 5, (1 << 32) + 1, 1 << 22)),
+        ]
     }
     fn check(&self, c: &Case) -> Outcome {
         if c.func == 10 || c.func == 11 { run_shake(c) } else { run_fixed(c) }
